@@ -71,32 +71,32 @@ SameDigest(a, c) == a.ok /\ a.len = c.len /\ a.md5 = c.md5 /\ (HasB(a) /\ HasB(c
 (* The checksum of the chunk bytes and the compressed sizes have no        *)
 (* listed deviation.                                                       *)
 (***************************************************************************)
-JudgeBuild(e) ==
-  LET x == BuildR(b, e.table)
-      seqok == e.seq = seq + 1
+\* mb: the model builder the container was built from; mcontent: what was handed to it; x: Apply(.., e)
+JudgeBuild(e, mb, mcontent, x) ==
+  LET seqok == e.seq = seq + 1
   IN
   IF e.res = "err" THEN Verdict(seqok /\ x.may, {})
   ELSE IF e.res # "ok" \/ ~Has(e, "ser") \/ e.ser # "ok" \/ ~Has(e, "parse") \/ e.parse # "ok" THEN Verdict(FALSE, {})
   ELSE
     LET t  == ParseTable(IF Has(e, "bytes") THEN e.bytes ELSE e.head, e.total)
-        n  == NChunks(b)
+        n  == NChunks(mb)
         np == Len(e.parts)
         same == e.nparsed = n /\ np = n
-        contentok == e.content.len = b.clen /\ (inline => HasB(e.content) /\ e.content.b = content)
+        contentok == e.content.len = mb.clen /\ (inline => HasB(e.content) /\ e.content.b = mcontent)
         \* ---- identity
         ident == /\ SameDigest(e.dec, e.content)
                  /\ Has(e, "dec2") => e.dec2.ok /\ e.dec2.len = e.content.len /\ e.dec2.md5 = e.content.md5
                  /\ (Has(e, "bytes") /\ HasB(e.content) /\ t.wf /\ AllStored(e.bytes, t))
                        => StoredBody(e.bytes, t, 1) = e.content.b
-        br == Broken(b)
-        SegOk(p) == /\ e.parts[p].ok /\ e.parts[p].len = b.chunks[p].len
+        br == Broken(mb)
+        SegOk(p) == /\ e.parts[p].ok /\ e.parts[p].len = mb.chunks[p].len
                     /\ (HasB(e.parts[p]) /\ inline) =>
-                          e.parts[p].b = SubSeq(content, b.chunks[p].off + 1, b.chunks[p].off + b.chunks[p].len)
+                          e.parts[p].b = SubSeq(mcontent, mb.chunks[p].off + 1, mb.chunks[p].off + mb.chunks[p].len)
         identDev == /\ br # {} /\ same /\ t.wf /\ t.n = n
-                    /\ \A p \in br : Known(WhyBroken(b, p))
+                    /\ \A p \in br : Known(WhyBroken(mb, p))
                     /\ \A p \in (1..n) \ br : SegOk(p)
-                    /\ \A p \in TooShort(b) : ~e.parts[p].ok /\ t.cs[p] = 17
-        identFids == IF ident THEN {} ELSE {WhyBroken(b, p) : p \in br}
+                    /\ \A p \in TooShort(mb) : ~e.parts[p].ok /\ t.cs[p] = 17
+        identFids == IF ident THEN {} ELSE {WhyBroken(mb, p) : p \in br}
         \* ---- chunk table (nothing to judge when there is none)
         tableBase == /\ t.wf /\ e.ranges_ok /\ Len(e.ranges) = t.n /\ np = t.n /\ e.nparsed = t.n
                      /\ \A i \in 1..t.n : e.ranges[i] = <<t.off[i], t.cs[i]>>
@@ -105,7 +105,7 @@ JudgeBuild(e) ==
         dsbad  == IF tabled THEN {i \in 1..t.n : e.parts[i].ok /\ t.ds[i] # e.parts[i].len} ELSE {}
         dmbad  == IF tabled /\ t.entry = 40 THEN {i \in 1..t.n : e.parts[i].ok /\ t.dmd5[i] # e.parts[i].md5} ELSE {}
         DsWhy(i) == IF Known("F01c") /\ e.firsts[i] = 69 /\ t.ds[i] = t.cs[i] - 16 THEN "F01c"
-                    ELSE IF Known("F01e") /\ same /\ b.chunks[i].kind = "parsed" /\ t.ds[i] = t.cs[i] - 1 THEN "F01e"
+                    ELSE IF Known("F01e") /\ same /\ mb.chunks[i].kind = "parsed" /\ t.ds[i] = t.cs[i] - 1 THEN "F01e"
                     ELSE IF ~ident /\ identDev /\ i \in br THEN "broken"
                     ELSE "bad"
         DmWhy(i) == IF Known("F01f") /\ e.firsts[i] = 69 /\ t.dmd5[i] = t.md5[i] THEN "F01f" ELSE "bad"
@@ -127,8 +127,11 @@ Step ==
      ELSE IF e.op = "hang" \/ phase # "open" THEN    \* a call that never returned / an event after the program's end
         /\ viol' = Flag(viol, l) /\ nviol' = nviol + 1 /\ phase' = "failed"
         /\ UNCHANGED <<b, inline, content, seq, devs>>
-     ELSE IF e.op = "build" THEN
-        LET j == JudgeBuild(e) IN
+     ELSE IF Final(e) THEN
+        LET x == Apply(b, e)
+            j == IF e.op = "build" THEN JudgeBuild(e, b, content, x)
+                 ELSE JudgeBuild(e, x.st, IF inline /\ Has(e, "data") THEN e.data ELSE <<>>, x)
+        IN
         /\ viol' = IF j.ok THEN viol ELSE Flag(viol, l)
         /\ nviol' = IF j.ok THEN nviol ELSE nviol + 1
         /\ devs' = [f \in Fids |-> IF \E i \in 1..Len(j.devs) : j.devs[i] = f
